@@ -46,6 +46,41 @@ static inline void epmap_set(struct epmap *m, struct epit it, void *val)
   __CPROVER_assert(!it.end, "[C12.deref] assignment through a dereferenceable iterator");
   if (it.key == G_ep) { m->val_G = val; }
 }
+/* configuration::channel_route, socket::get_incoming_route / get_outgoing_route / local_bound_to, internal_is_listening:
+ * foreign or header-inline code; recorded */
+extern size_t g_cfgroute_calls; extern addr_t g_cfgroute_src, g_cfgroute_dst; extern route_t g_cfgroute_result;
+route_t nondet_route(void);
+static inline route_t cfg_channel_route(struct configuration *c, addr_t src, addr_t dst)
+{
+  (void)c; route_t r = nondet_route(); __CPROVER_assume(r.len >= 0 && r.len <= 300);
+  g_cfgroute_calls++; g_cfgroute_src = src; g_cfgroute_dst = dst; g_cfgroute_result = r; return r;
+}
+extern void *g_inroute_sock; extern size_t g_inroute_calls; extern void *g_inroute_sock2;
+static inline route_t sock_get_incoming_route(void *sock)
+{
+  route_t r = nondet_route(); __CPROVER_assume(r.len >= 1 && r.len <= 300);
+  if (g_inroute_calls == 0) g_inroute_sock = sock; else g_inroute_sock2 = sock;
+  g_inroute_calls++; return r;
+}
+extern size_t g_outroute_calls;
+static inline route_t sock_get_outgoing_route(void *sock) { (void)sock; route_t r = nondet_route(); __CPROVER_assume(r.len >= 0 && r.len <= 300); g_outroute_calls++; return r; }
+ep_t nondet_ep(void);
+ep_t __CPROVER_uninterpreted_bound_of(void *sock);
+static inline ep_t sock_local_bound_to(void *sock) { ep_t e = __CPROVER_uninterpreted_bound_of(sock); __CPROVER_assume(EP_VALID(e)); return e; }
+bool __CPROVER_uninterpreted_is_listening(void *sock);
+extern size_t g_listen_q_calls; extern void *g_listen_q_sock;
+static inline bool sock_is_listening(void *sock) { g_listen_q_calls++; g_listen_q_sock = sock; return __CPROVER_uninterpreted_is_listening(sock); }
+extern size_t g_nfwd_count; extern struct packet g_nfwd_last;
+static inline void simnet_forward_packet(struct packet p) { g_nfwd_count++; g_nfwd_last = p; }
+extern size_t g_new_channel_calls;
+void *malloc(size_t);
+static inline struct channel *make_channel(void)
+{
+  struct channel *c = malloc(sizeof(struct channel)); __CPROVER_assume(c != (struct channel *)0);
+  CHANNEL_SET_DEFAULTS(c); c->bytes_sent[0] = 0; c->bytes_sent[1] = 0;     /* aux::channel::channel() is under contract in the channel unit */
+  g_new_channel_calls++; return c;
+}
+#define NET_GHOST g_cfgroute_calls, g_cfgroute_src, g_cfgroute_dst, g_cfgroute_result, g_inroute_sock, g_inroute_sock2, g_inroute_calls, g_outroute_calls, g_listen_q_calls, g_listen_q_sock, g_nfwd_count, g_nfwd_last
 #define MAP_GHOST g_map_inserts, g_map_erases
 #define SIMNET_FRESH(self) (__CPROVER_is_fresh(self, sizeof(*self)) && EPMAP_OK((self)->m_listen_sockets) && EPMAP_OK((self)->m_udp_sockets))
 #endif
